@@ -31,13 +31,14 @@ Definition use_is_enc (u : option use) : bool := match u with Some Encryption =>
 Definition published_b (md : metadata icert) (e : string) (c : icert) : bool :=
   match lookup_md e md with
   | Some roles => existsb (fun role => existsb (fun kd => icert_eqb (snd kd) c && negb (use_is_enc (fst kd))) role) roles
+                  && negb (iblank c)
   | None => false
   end.
 
 Definition no_signing_key_b (md : metadata icert) (issuer : option string) : bool :=
   match issuer with
   | Some e => match lookup_md e md with
-              | Some roles => forallb (fun role => forallb (fun kd => use_is_enc (fst kd)) role) roles
+              | Some roles => forallb (fun role => forallb (fun kd => use_is_enc (fst kd) || iblank (snd kd)) role) roles
               | None => true
               end
   | None => true
@@ -57,22 +58,24 @@ Definition spec_b (x : iinput) (out : iout) : bool :=
   && (if fst out then genuine_b x && trusted_b x (Gd (fst (s x))) else true)
   && (if genuine_b x && claimed_published_b x (Gd (fst (s x))) then fst out else true).
 
-(* finding class 2 (C03-F2): the claimed issuer publishes for signing a KeyDescriptor without certificate.
-   Excused: a rejection (every key of the issuer is lost), and -- where the opt-in fallback is on and the
-   signature is enveloped -- use of the embedded certificates instead.  Nothing else. *)
-Definition blank_pub_b (x : iinput) : bool := existsb iblank (walk_certs (md x) (claimed x)).
+(* ---- the classes of the two repaired findings: a failure inside them is a regression of the repair (the
+   findings are "fixed": a fixed entry suppresses nothing, the failure is reported as a VIOLATION) ---- *)
+
+(* class 2 (C03-F2, repaired by a9edf887): the claimed issuer declares, for signing or with no use, a
+   KeyDescriptor without certificate; the failure is a rejection (every key of the issuer lost) or -- fallback
+   on, enveloped signature -- use of the embedded certificates although metadata holds a key *)
+Definition blank_pub_b (x : iinput) : bool := existsb iblank (walk_certs_v0 (md x) (claimed x)).
 Definition fallback_cfg (x : iinput) : bool := negb (only_md x) && negb (detached x).
 Definition in_f2 (x : iinput) (out : iout) : bool :=
   blank_pub_b x
   && forallb (fun c => claimed_published_b x c || (fallback_cfg x && existsb (icert_eqb c) (embedded x))) (snd out)
   && (negb (fst out) || (fallback_cfg x && genuine_b x && existsb (icert_eqb (Gd (fst (s x)))) (embedded x))).
 
-(* finding class 1 (C03-F1) = outside the guard of c03_trust: a detached signature, and the walk over the
-   issuer's published signing certificates meets one that is no certificate before one that verifies.
-   Only a REJECTION can be excused by it (soundness has no guard here). *)
+(* class 1 (C03-F1, repaired by 2dad6239): a detached signature is REJECTED, and the walk over the issuer's
+   published signing certificates meets one that is no certificate before one that verifies *)
 Definition in_f1 (x : iinput) (out : iout) : bool :=
-  detached x && negb (fst out) && negb (blank_pub_b x)
-  && hits_unreadable iverify ireadable (walk_certs (md x) (claimed x)) (m x) (s x).
+  detached x && negb (fst out)
+  && hits_unreadable iverify ireadable (signing_certs iblank (md x) (claimed x)) (m x) (s x).
 
 (* walk the life of the receiver with a per-verification test *)
 Fixpoint seq_b (pb : iinput -> iout -> bool) (cur : metadata icert) (only : bool) (ops : list iop) (outs : list iout) : bool :=
@@ -121,36 +124,40 @@ Definition explain (c : case) :=
   (run_ops iverify ireadable iblank (c_md c) (c_only c) (c_ops c), c_outs c, holds c, cls c).
 
 (* ---- the boolean spec is the stated spec (on the instance) ---- *)
-Lemma published_b_iff mdx e c : published_b mdx e c = true <-> published_for_signing mdx e c.
+Lemma published_b_iff mdx e c : published_b mdx e c = true <-> published_for_signing iblank mdx e c.
 Proof.
   unfold published_b, published_for_signing. destruct (lookup_md e mdx) as [roles|].
-  - rewrite existsb_exists. split.
-    + intros [role [Hr H]]. apply existsb_exists in H as [[u c'] [Hin H]]. cbn [fst snd] in H.
+  - rewrite andb_true_iff, negb_true_iff, existsb_exists. split.
+    + intros [[role [Hr H]] Hb]. apply existsb_exists in H as [[u c'] [Hin H]]. cbn [fst snd] in H.
       apply andb_true_iff in H as [Hc Hu]. apply icert_eqb_eq in Hc. subst c'.
       exists roles, role, u. repeat split; auto. intros ->. discriminate.
-    + intros (roles' & role & u & [= <-] & Hr & Hin & Hu). exists role. split; [exact Hr|].
+    + intros (roles' & role & u & [= <-] & Hr & Hin & Hu & Hb). split; [|exact Hb]. exists role. split; [exact Hr|].
       apply existsb_exists. exists (u, c). split; [exact Hin|]. cbn [fst snd]. rewrite (proj2 (icert_eqb_eq c c) eq_refl).
       destruct u as [[|]|]; cbn; auto; try (contradiction Hu; reflexivity).
   - split; [discriminate|]. intros (roles & _ & _ & H & _). discriminate.
 Qed.
 
-Lemma no_signing_key_b_iff mdx issuer : no_signing_key_b mdx issuer = true <-> no_signing_key mdx issuer.
+Lemma no_signing_key_b_iff mdx issuer : no_signing_key_b mdx issuer = true <-> no_signing_key iblank mdx issuer.
 Proof.
   unfold no_signing_key_b, no_signing_key. destruct issuer as [e|].
   - split.
     + intros H e' c [= <-] Hp. apply published_b_iff in Hp. unfold published_b in Hp.
       destruct (lookup_md e mdx) as [roles|]; [|discriminate].
-      apply existsb_exists in Hp as [role [Hr Hp]]. apply existsb_exists in Hp as [kd [Hin Hp]].
-      apply andb_true_iff in Hp as [_ Hu]. rewrite forallb_forall in H. specialize (H role Hr).
-      rewrite forallb_forall in H. specialize (H kd Hin). rewrite H in Hu. discriminate.
+      apply andb_true_iff in Hp as [Hp Hb]. apply negb_true_iff in Hb.
+      apply existsb_exists in Hp as [role [Hr Hp]]. apply existsb_exists in Hp as [[u c'] [Hin Hp]].
+      cbn [fst snd] in Hp. apply andb_true_iff in Hp as [Hc Hu]. apply icert_eqb_eq in Hc. subst c'.
+      rewrite forallb_forall in H. specialize (H role Hr).
+      rewrite forallb_forall in H. specialize (H (u, c) Hin). cbn [fst snd] in H. rewrite Hb in H.
+      destruct (use_is_enc u); discriminate.
     + intros H. destruct (lookup_md e mdx) as [roles|] eqn:L; [|reflexivity].
-      apply forallb_forall. intros role Hr. apply forallb_forall. intros [u c] Hin. cbn [fst].
-      destruct (use_is_enc u) eqn:Eu; [reflexivity|]. exfalso. apply (H e c eq_refl).
+      apply forallb_forall. intros role Hr. apply forallb_forall. intros [u c] Hin. cbn [fst snd].
+      destruct (use_is_enc u) eqn:Eu; [reflexivity|]. destruct (iblank c) eqn:Eb; [reflexivity|].
+      exfalso. apply (H e c eq_refl).
       exists roles, role, u. repeat split; auto. intros ->. discriminate.
   - split; [intros _ e c [=]|reflexivity].
 Qed.
 
-Lemma trusted_b_iff x c : trusted_b x c = true <-> trusted_for x c.
+Lemma trusted_b_iff x c : trusted_b x c = true <-> trusted_for iblank x c.
 Proof.
   unfold trusted_b, trusted_for, claimed_published_b. rewrite orb_true_iff, !andb_true_iff, !negb_true_iff.
   rewrite no_signing_key_b_iff. split.
@@ -169,7 +176,7 @@ Proof.
   - intros [-> ->]. reflexivity.
 Qed.
 
-Lemma spec_b_iff x out : spec_b x out = true <-> spec icert_of isign x out.
+Lemma spec_b_iff x out : spec_b x out = true <-> spec icert_of isign iblank x out.
 Proof.
   destruct out as [o h]. unfold spec_b, spec, sound, complete. cbn [fst snd]. rewrite !andb_true_iff, forallb_forall. split.
   - intros [[H1 H2] H3]. repeat split.
@@ -224,83 +231,51 @@ Proof.
            ++ intros pre q post E. subst r. apply (H (Check q0 :: pre) q post eq_refl).
 Qed.
 
-Lemma holds_iff c : holds c = true <-> seq_spec (spec icert_of isign) (c_md c) (c_only c) (c_ops c) (c_outs c).
+Lemma holds_iff c : holds c = true <-> seq_spec (spec icert_of isign iblank) (c_md c) (c_only c) (c_ops c) (c_outs c).
 Proof. unfold holds. apply seq_b_iff. exact spec_b_iff. Qed.
 
-(* the faithful model does break the specification: completeness inside class 1, completeness and (with
-   the fallback on) soundness inside class 2 *)
+(* ---- the code before the repairs (accept_v0) breaks the specification, inside the two classes ---- *)
 Definition f1_witness : iinput :=
   Build_input [("sp", [[(Some Signing, Jk 0); (Some Signing, Gd 1)]])] true (Some "sp") [] true 7 (isign 1 7).
 Definition f2_witness : iinput :=
   Build_input [("idp", [[(Some Signing, Gd 1); (None, Bl 0)]])] false (Some "idp") [Gd 6] false 7 (isign 6 7).
+Definition f2_witness_default : iinput :=
+  Build_input [("idp", [[(Some Signing, Gd 1); (None, Bl 0)]])] true (Some "idp") [] false 7 (isign 1 7).
 
-Lemma complete_refuted :
-  exists x, ~ complete icert_of isign x (accept iverify ireadable iblank x).
+(* C03-F1: a correctly signed Redirect request was rejected *)
+Lemma v0_complete_refuted :
+  exists x, ~ complete icert_of isign iblank x (accept_v0 iverify ireadable iblank x).
 Proof.
   exists f1_witness. intros H.
-  assert (Hp : published_for_signing (md f1_witness) "sp" (icert_of 1)) by (apply published_b_iff; vm_compute; reflexivity).
+  assert (Hp : published_for_signing iblank (md f1_witness) "sp" (icert_of 1)) by (apply published_b_iff; vm_compute; reflexivity).
   specialize (H 1 "sp"%string eq_refl eq_refl Hp). vm_compute in H. discriminate.
 Qed.
 
-Lemma sound_refuted :
-  exists x, ~ sound icert_of isign x (accept iverify ireadable iblank x).
+(* C03-F2: the embedded certificate was trusted although metadata holds a key for the issuer; and with the
+   default flag the issuer's own key was lost *)
+Lemma v0_sound_refuted :
+  exists x, ~ sound icert_of isign iblank x (accept_v0 iverify ireadable iblank x).
 Proof.
   exists f2_witness. intros (H1 & _ & _).
-  assert (Hin : In (Gd 6) (snd (accept iverify ireadable iblank f2_witness))) by (vm_compute; left; reflexivity).
+  assert (Hin : In (Gd 6) (snd (accept_v0 iverify ireadable iblank f2_witness))) by (vm_compute; left; reflexivity).
   apply H1, trusted_b_iff in Hin. vm_compute in Hin. discriminate.
 Qed.
 
-Lemma refutations_classified :
-  in_f1 f1_witness (accept iverify ireadable iblank f1_witness) = true
-  /\ in_f2 f2_witness (accept iverify ireadable iblank f2_witness) = true.
-Proof. vm_compute. split; reflexivity. Qed.
-
-Lemma blank_pub_b_iff x : blank_pub_b x = true <-> blank_published iblank (md x) (claimed x).
-Proof. unfold blank_pub_b. apply blank_walk_iff. Qed.
-
-Lemma iverify_true c mm ss : iverify c mm ss = true -> c = Gd (fst ss) /\ Nat.eqb (snd ss) mm = true.
+Lemma v0_complete_refuted_f2 :
+  exists x, only_md x = true /\ ~ complete icert_of isign iblank x (accept_v0 iverify ireadable iblank x).
 Proof.
-  destruct c as [k|n|n]; cbn [iverify]; try discriminate. intros H.
-  apply andb_true_iff in H as [H1 H2]. apply Nat.eqb_eq in H1. apply Nat.eqb_eq in H2. subst.
-  split; [reflexivity|apply Nat.eqb_refl].
+  exists f2_witness_default. split; [reflexivity|]. intros H.
+  assert (Hp : published_for_signing iblank (md f2_witness_default) "idp" (icert_of 1)) by (apply published_b_iff; vm_compute; reflexivity).
+  specialize (H 1 "idp"%string eq_refl eq_refl Hp). vm_compute in H. discriminate.
 Qed.
 
-(* every spec failure of the MODEL lies in class 1 or 2 *)
-Lemma model_failures_classified x :
-  spec_b x (accept iverify ireadable iblank x) = false ->
-  in_f1 x (accept iverify ireadable iblank x) || in_f2 x (accept iverify ireadable iblank x) = true.
-Proof.
-  intros Hf. destruct (blank_pub_b x) eqn:Eb.
-  - (* class 2 *)
-    apply orb_true_iff. right. unfold in_f2. rewrite Eb. cbn [andb].
-    unfold accept, candidates, signing_certs. unfold blank_pub_b in Eb. rewrite Eb.
-    destruct (detached x) eqn:Ed; [reflexivity|].
-    destruct (only_md x) eqn:Eo; [reflexivity|].
-    unfold fallback_cfg. rewrite Eo, Ed. cbn [negb andb].
-    apply andb_true_iff. split.
-    + apply forallb_forall. intros c Hc. apply try_certs_handed in Hc. apply orb_true_iff. right.
-      apply existsb_exists. exists c. split; [exact Hc|apply icert_eqb_eq; reflexivity].
-    + destruct (fst (try_certs iverify (embedded x) (m x) (s x))) eqn:Ea; [|reflexivity]. cbn [negb orb].
-      apply try_certs_true in Ea as [c [Hin Hv]]. apply iverify_true in Hv as [-> Hg].
-      unfold genuine_b. rewrite Hg. cbn [andb]. apply existsb_exists. exists (Gd (fst (s x))).
-      split; [exact Hin|apply icert_eqb_eq; reflexivity].
-  - (* no blank KeyDescriptor: soundness holds, completeness fails only inside class 1 *)
-    assert (Hnb : ~ blank_published iblank (md x) (claimed x)).
-    { intros H. apply blank_pub_b_iff in H. congruence. }
-    assert (Hsound : sound icert_of isign x (accept iverify ireadable iblank x)).
-    { apply accept_sound; [exact iverify_spec|exact isign_inj|]. intros _ _. exact Hnb. }
-    apply orb_true_iff. left. unfold in_f1. rewrite Eb. cbn [negb andb].
-    destruct (detached x) eqn:Ed.
-    + destruct (hits_unreadable iverify ireadable (walk_certs (md x) (claimed x)) (m x) (s x)) eqn:Hh.
-      * destruct (fst (accept iverify ireadable iblank x)) eqn:Ea; [|reflexivity]. exfalso.
-        assert (Hs : spec icert_of isign x (accept iverify ireadable iblank x)).
-        { split; [exact Hsound|]. intros k e _ _ _. exact Ea. }
-        apply spec_b_iff in Hs. congruence.
-      * exfalso. assert (Hs : spec icert_of isign x (accept iverify ireadable iblank x)).
-        { split; [exact Hsound|]. apply accept_complete; [exact iverify_spec|]. split; [exact Hnb|].
-          intros _ Hu. apply hits_unreadable_iff in Hu. congruence. }
-        apply spec_b_iff in Hs. congruence.
-    + exfalso. assert (Hs : spec icert_of isign x (accept iverify ireadable iblank x)).
-      { apply trust_enveloped; [exact iverify_spec|exact isign_inj|exact Ed|exact Hnb]. }
-      apply spec_b_iff in Hs. congruence.
-Qed.
+(* the pre-fix outputs fail the boolean spec inside their classes (what Corr.cls reports for a regression),
+   the repaired model passes on the same inputs *)
+Lemma v0_refutations_classified :
+  let a0 := accept_v0 iverify ireadable iblank in
+  let a := accept iverify ireadable iblank in
+  (spec_b f1_witness (a0 f1_witness) = false /\ in_f1 f1_witness (a0 f1_witness) = true /\ spec_b f1_witness (a f1_witness) = true)
+  /\ (spec_b f2_witness (a0 f2_witness) = false /\ in_f2 f2_witness (a0 f2_witness) = true /\ spec_b f2_witness (a f2_witness) = true)
+  /\ (spec_b f2_witness_default (a0 f2_witness_default) = false /\ in_f2 f2_witness_default (a0 f2_witness_default) = true
+      /\ spec_b f2_witness_default (a f2_witness_default) = true).
+Proof. vm_compute. repeat split; reflexivity. Qed.
